@@ -15,6 +15,7 @@ mod exec;
 mod generate;
 mod geom;
 mod history;
+mod kfault;
 mod monitors;
 mod ops;
 mod refdt;
